@@ -69,6 +69,7 @@ def _run_case(args):
     try:
         source.reset_cache()
         if mutation is not None:
+            os.environ['PYVC_STOP_ON_FAIL'] = '1'
             cname = mutation
             mut = [c for c in u.canaries if c[0] == cname][0]
             mod = source.load(u.relpath)
